@@ -15,8 +15,8 @@ LEVEL_TEXT = ('partial. Lean 4 theorems (exact arithmetic): rescaling by s divid
               'invariant under the unit of length; arrays get ceil(n*s) samples; the physical extent is preserved to within one new sample; the '
               'interpolation grid is uniform with spacing 1/s and maps centre to centre; at s = 1 every output sample is interpolated at its own '
               'integer coordinate, so the operation is the identity for any interpolator reproducing samples there; a constant aperture keeps its '
-              'power up to the one-sample rim (n0 n1 a^2 <= P\' <= (n0+1/s)(n1+1/s) a^2) because the amplitude is divided by s; the mask values stay 0/1 '
-              'and the segment count is kept; under nearest-sample resampling on the regenerated grid (order 0, mode constant) disjoint segments stay disjoint on the whole output grid, their union is the resampled union at samples whose coordinate lies inside the input array, and on the rim beyond the first/last input sample every segment is zero (a border-filling mask loses its trailing rim: all-ones 5x5 at s = 2 keeps 81 of 100); a plane rescaled by 1 keeps pixel scale, factors, shape and samples every array at its own integer coordinates (plane_rescale_one_is_identity); s then 1/s returns pixel scale and (for integer n*s) shape; the grid of util.rescale is REGENERATED from the source (each axis centred and sized with its own lengths); the original is untouched (regenerated effect table). Compared with the code on every case: shapes, '
+              'power up to the one-sample rim (n0 n1 a^2 <= P\' <= (n0+1/s)(n1+1/s) a^2) because the amplitude is divided by s; on the regenerated grid (order 0, mode constant) every resampled mask layer '
+              'takes only the values 0/1, the number of layers is kept and, at samples whose coordinate lies inside the input array, the union of disjoint segments is the resampled union (resampled_layers_binary_count_union); disjoint segments stay disjoint on the whole output grid (segments_stay_disjoint_on_grid), and on the rim beyond the first/last input sample every segment is zero (a border-filling mask loses its trailing rim: all-ones 5x5 at s = 2 keeps 81 of 100); a plane rescaled by 1 keeps pixel scale, factors, shape and samples every array at its own integer coordinates (plane_rescale_one_is_identity); s then 1/s returns pixel scale and (for integer n*s) shape; the grid of util.rescale is REGENERATED from the source (each axis centred and sized with its own lengths); the original is untouched (regenerated effect table). Compared with the code on every case: shapes, '
               'per-axis pixel scale, the amplitude factor 1/s on top of util.rescale, the whole interpolation grid, refusals. Power/image/amplitude/OPD '
               'preservation "to interpolation accuracy" is measured, not proved.')
 LEVEL_NOTE = ('partial: bookkeeping theorems over a hand model whose grid (shape argument, row/column coordinates, coordinate order) is regenerated from util.py (Gen/RescaleGrid.lean); the wiring of Plane.rescale/resample (copy, ndim guards, /scale, interpolation options, binarise/cast/slice, per-axis pixel scale, guards) is regenerated too (Gen/PlaneRescale.lean, plane_rescale_wiring); cubic-spline interpolation accuracy (scipy map_coordinates) is an '
@@ -47,12 +47,12 @@ UNPROVEN = ['transmitted power sum|amplitude|^2 is preserved to interpolation ac
             'segment masks stay non-empty and cover the aperture support: oracle only; disjointness is proved on the regenerated grid (segments_stay_disjoint_on_grid) under the nearest-sample contract of map_coordinates(order=0, mode=constant), which is trusted',
             'hard-edged and border-filling apertures are outside the quantifier of the measured clauses: generated with loose tolerances, bookkeeping and the exact constant-aperture power bound are checked on them']
 ASSUMPTIONS = ['apertures and OPDs are smooth on the sampling grid (property quantifier)',
-               'RIM: the mask is interpolated with mode=\'constant\', so output samples whose coordinate falls outside [0, n-1] (up to half an input pixel at '
-               'each border for s > 1) are 0 in every segment while amplitude/OPD use mode=\'nearest\'. Masks that touch the array border lose that rim, and a '
-               'segment that lives ONLY on border pixels can come back empty, which makes Plane.rescale raise IndexError in _plane_slice (3x3 plane, 4 label '
-               'segments, s = 1.25; 5x3, 5 segments, s = 0.75). Such one/two-pixel border segments are not well-sampled apertures (outside the quantifier); '
-               'generated segments always have interior pixels. Reported with a candidate one-word patch (mode=\'nearest\' for the mask: keeps every source pixel, '
-               '146 tests pass)',
+               'util.rescale is modelled and exercised as Plane.rescale calls it (unitary=False, shape=None, mask=None, real input); its default '
+               'unitary=True renormalisation, the shape=/mask= arguments and complex input are not modelled here (unitary=True is exercised by C19 pixelate)',
+               'mask support does not touch the array border: the half-pixel rim beyond the first/last sample centre is outside the array for the mask\'s '
+               'mode=\'constant\' (deliberate: outside the array there is no aperture), so an aperture filling the array loses about 3 % of its mask samples at '
+               's = 2 (all-ones 5x5: 81 of 100) and a segment living ONLY on border pixels can come back empty (Plane.rescale then raises IndexError in '
+               '_plane_slice: 3x3 plane with 4 label segments at s = 1.25); generated segments always have interior pixels',
                'FLOAT SEAM of the documented formula: the sample count is ceil(fl(n*s)) with the product formed in float64. For non-dyadic s it '
                'differs by one from the exact ceil(n*s) (s the float) exactly when n*s is within an ulp of an integer — e.g. 30 samples x 1.1 give 33 '
                '(exact 34, decimal intent 33), 50 x 1.1 give 56 (exact 56, decimal intent 55), resample of 27 samples 2e-4 -> 3e-4 gives 19 (s = '
